@@ -38,6 +38,18 @@ ChgName(a, n) ==
   ELSE IF n \in DOMAIN n2a THEN Unch("E")
   ELSE a2n' = Put(a2n, a, n) /\ n2a' = Put(Del(n2a, a2n[a]), n, a) /\ res' = "T"
 Clear == n2a' = <<>> /\ a2n' = <<>> /\ res' = "-"
+\* the constructor's bulk load: the pairs are added one after the other to an empty registry; the first one that
+\* addNameAddr refuses with an error makes the constructor raise (res "E"); a repeated identical pair is harmless
+AddF(st, n, a) == IF st.r = "E" THEN st
+                  ELSE IF n = NoVal \/ a = NoVal THEN [st EXCEPT !.r = "E"]
+                  ELSE IF n \in DOMAIN st.n2a THEN (IF st.n2a[n] = a THEN st ELSE [st EXCEPT !.r = "E"])
+                  ELSE IF a \in DOMAIN st.a2n THEN [st EXCEPT !.r = "E"]
+                  ELSE [r |-> "T", n2a |-> Put(st.n2a, n, a), a2n |-> Put(st.a2n, a, n)]
+RECURSIVE LoadF(_, _)
+LoadF(st, pairs) == IF pairs = <<>> THEN st ELSE LoadF(AddF(st, Head(pairs)[1], Head(pairs)[2]), Tail(pairs))
+Load(pairs) == /\ n2a = <<>> /\ a2n = <<>>
+               /\ LET st == LoadF([r |-> "T", n2a |-> <<>>, a2n |-> <<>>], pairs) IN
+                  IF st.r = "E" THEN Unch("E") ELSE n2a' = st.n2a /\ a2n' = st.a2n /\ res' = "T"
 NN == Names \cup {NoVal}
 AA == Addrs \cup {NoVal}
 Next == \E n \in NN, a \in AA : Add(n,a) \/ Rem(n,a) \/ ChgAddr(n,a) \/ ChgName(a,n) \/ Clear
